@@ -178,10 +178,11 @@ class C06Yields(Monitor):
                 self.co2_season = season
                 yr = _pd.Timestamp(pre.date).year if dap == 1 else _pd.Timestamp(m._clock_struct.planting_dates[season]).year
                 conc = configured_co2(ctx.spec.get("co2"), yr, _S.parse_date(ctx.spec["start"]).year)
-                self.fco2_ref = ref_fco2(conc, float(m._param_struct.CO2.ref_concentration), float(crop.bsted), float(crop.bface), float(crop.fsink), float(crop.WP))
+                co2ref = float((ctx.spec.get("co2") or {}).get("ref_concentration", 369.41))   # the configured reference (documented default 369.41)
+                self.fco2_ref = ref_fco2(conc, co2ref, float(crop.bsted), float(crop.bface), float(crop.fsink), float(crop.WP))
                 if abs(self.fco2_ref - float(crop.fCO2)) > 1e-12:
                     ctx.violate("co2-adjustment-of-the-planting-year", t, observed={"fCO2": float(crop.fCO2)}, expected={"fCO2": self.fco2_ref, "ppm": conc, "planting_year": yr}, season=season)
-                if conc > float(m._param_struct.CO2.ref_concentration):
+                if conc > co2ref:
                     ctx.hit("co2_above_reference_season")
             wp = float(crop.WP) * float(self.fco2_ref)
             hi_b = wp * tr / et0
